@@ -191,14 +191,23 @@ func (pool *BlockPool) IsCaughtUp() bool {
 // So we peek two blocks at a time.
 // The caller will verify the commit.
 func (pool *BlockPool) PeekTwoBlocks() (first *types.Block, second *types.Block) {
+	first, second, _, _ = pool.PeekTwoBlocksAndPeers()
+	return
+}
+
+// PeekTwoBlocksAndPeers returns the blocks at pool.height and pool.height+1
+// like PeekTwoBlocks, together with the IDs of the peers they were received
+// from. If the blocks turn out to be bad, these are the peers to hold
+// responsible: by then the requests may have been handed to somebody else.
+func (pool *BlockPool) PeekTwoBlocksAndPeers() (first, second *types.Block, firstPeerID, secondPeerID p2p.ID) {
 	pool.mtx.Lock()
 	defer pool.mtx.Unlock()
 
 	if r := pool.requesters[pool.height]; r != nil {
-		first = r.getBlock()
+		first, firstPeerID = r.getBlockAndPeerID()
 	}
 	if r := pool.requesters[pool.height+1]; r != nil {
-		second = r.getBlock()
+		second, secondPeerID = r.getBlockAndPeerID()
 	}
 	return
 }
@@ -228,6 +237,9 @@ func (pool *BlockPool) PopRequest() {
 // RedoRequest invalidates the block at pool.height,
 // Remove the peer and redo request from others.
 // Returns the ID of the removed peer.
+// NOTE: the peer removed is the one the request is assigned to at the time of
+// the call. That is not necessarily the peer a block peeked earlier came from
+// (see PeekTwoBlocksAndPeers).
 func (pool *BlockPool) RedoRequest(height int64) p2p.ID {
 	pool.mtx.Lock()
 	defer pool.mtx.Unlock()
@@ -565,6 +577,18 @@ func (bpr *bpRequester) getBlock() *types.Block {
 	bpr.mtx.Lock()
 	defer bpr.mtx.Unlock()
 	return bpr.block
+}
+
+// getBlockAndPeerID returns the block together with the peer it came from
+// (setBlock only accepts a block from the peer the request is assigned to, and
+// reset clears both).
+func (bpr *bpRequester) getBlockAndPeerID() (*types.Block, p2p.ID) {
+	bpr.mtx.Lock()
+	defer bpr.mtx.Unlock()
+	if bpr.block == nil {
+		return nil, ""
+	}
+	return bpr.block, bpr.peerID
 }
 
 func (bpr *bpRequester) getPeerID() p2p.ID {
